@@ -55,7 +55,8 @@ def _clauses(items, prefix):
 
 
 class ClassDecl(object):
-    def __init__(self, name, fields, real=None, check_init=True, extra_ok=()):
+    def __init__(self, name, fields, real=None, check_init=True, extra_ok=(), bases=()):
+        self.bases = set(bases)
         self.name = name
         self.fields = collections.OrderedDict(fields)
         self.real = real or {}
@@ -63,11 +64,11 @@ class ClassDecl(object):
         self.extra_ok = set(extra_ok)
 
 
-def klass(name, fields, real=None, check_init=True, extra_ok=()):
+def klass(name, fields, real=None, check_init=True, extra_ok=(), bases=()):
     """Declare an object class: field name -> type.  `real` maps twin -> 'module:ClassName'."""
     if isinstance(real, str):
         real = {'sync': real, 'async': real}
-    CLASSES[name] = ClassDecl(name, fields, real, check_init, extra_ok)
+    CLASSES[name] = ClassDecl(name, fields, real, check_init, extra_ok, bases)
     return CLASSES[name]
 
 
